@@ -155,7 +155,7 @@ def replay(drv, pid, spec, path):
         env.update(drv.SAN_ENV)
         tmp = os.path.join(drv.BUILD, "run", f"replay-{os.getpid()}")
         os.makedirs(tmp, exist_ok=True)
-        r = subprocess.run([exe, "--replay", path, "--sanitizer-only", "--tmp-dir", tmp], env=env, stdout=subprocess.PIPE, stderr=subprocess.STDOUT, text=True)
+        r = subprocess.run([exe, "--replay", path, "--sanitizer-only", "--tmp-dir", tmp], env=env, stdout=subprocess.PIPE, stderr=subprocess.STDOUT, text=True, errors="replace")
         shutil.rmtree(tmp, ignore_errors=True)
         print(r.stdout)
         if r.returncode == 1:
